@@ -25,7 +25,7 @@ ASSUMPTIONS = ["documented sets are the ones in the property statement", "a retu
 KEYSET = (der.UnexpectedDER, MalformedPointError, UnknownCurveError)
 SIGSET = (MalformedSignature, der.UnexpectedDER)
 ECDHSET = KEYSET + (InvalidCurveError, NoCurveError)
-REQUIRED = {"quick": ["vk.from_string", "vk.from_der", "vk.from_pem", "sk.from_string", "sk.from_der", "sk.from_pem", "sigdecode_string",
+REQUIRED = {"quick": ["first_use_loaders", "first_use_loaders_systematic", "vk.from_string", "vk.from_der", "vk.from_pem", "sk.from_string", "sk.from_der", "sk.from_pem", "sigdecode_string",
                       "sigdecode_strings", "sigdecode_der", "verify.string", "verify.der", "verify.strings", "ecdh.pub_bytes", "ecdh.pub_der", "ecdh.pub_pem",
                       "ecdh.priv_bytes", "ecdh.priv_der", "ecdh.priv_pem", "outcome.ok", "outcome.documented", "concurrent_loaders"]}
 SHARD_BUDGET_S = {"quick": 120, "thorough": 1500}
